@@ -46,7 +46,7 @@ type Config struct {
 	Jumps   bool     `json:"jumps"`  // clock jumps of 250ms before any clock reading
 	Agg     bool     `json:"agg"`    // consume through helpers.RunAggregationLoop
 	ErrSrc  int      `json:"errsrc"` // source with an injected read error (-1: none)
-	ErrAt   int      `json:"errat"`  // the error replaces the answer of this read (0-based) of that source
+	ErrAt   int      `json:"errat"`  // the error replaces the answer of this read (0-based) of that source; -1: the open fails
 	Bound   int      `json:"bound"`
 }
 
@@ -187,6 +187,8 @@ type obs struct {
 	snaps        []snapshot
 	final        map[string]int64
 	overlap      string
+	openFailed   bool
+	injected     bool // the injected read error was actually returned
 	overlap2     string
 	samples      int
 	lastSampleAt int
@@ -209,6 +211,7 @@ func (r *chunkReader) Read(p []byte) (int, error) {
 		return 0, r.err
 	}
 	if r.c.ErrSrc == 0 && r.reads == r.c.ErrAt {
+		r.o.injected = true
 		r.err = errInjected
 		r.reads++
 		return 0, errInjected
@@ -283,12 +286,23 @@ func body(c *Config, o *obs) {
 			names.Send(n)
 		}
 		names.Close()
+		if c.ErrSrc >= 0 && c.ErrAt < 0 {
+			bad := srcName(c, c.ErrSrc)
+			fs.OpenHook = func(name string) error {
+				if name == bad {
+					o.openFailed = true
+					return errInjected
+				}
+				return nil
+			}
+		}
 		reads := map[string]int{}
 		fs.ReadHook = func(name string, want, avail int) (int, error) {
 			i := idx[name]
 			k := reads[name]
 			reads[name]++
 			if c.ErrSrc == i && k == c.ErrAt {
+				o.injected = true
 				return 0, errInjected
 			}
 			n := min(want, avail)
@@ -452,9 +466,12 @@ func check(c *Config, o *obs, res *vrt.Result) []finding {
 	wantErrs := 0
 	for i, s := range c.Sources {
 		delivered[i] = s
-		if c.ErrSrc == i {
+		if c.ErrSrc == i && c.ErrAt < 0 {
+			delivered[i] = ""
+			wantErrs = 1
+		} else if c.ErrSrc == i {
 			// the error replaced read number ErrAt; if the source had already hit EOF before, no error happened
-			if o.delivered[i] < len(s) || errHappened(c, o, i) {
+			if o.injected {
 				delivered[i] = s[:o.delivered[i]]
 				wantErrs = 1
 			}
@@ -578,9 +595,6 @@ func check(c *Config, o *obs, res *vrt.Result) []finding {
 	return fs
 }
 
-// errHappened: the injected error was reached (read number ErrAt was issued).
-func errHappened(c *Config, o *obs, i int) bool { return o.readErrs > 0 }
-
 func eqCounts(a, b map[string]int64) bool {
 	if len(a) != len(b) {
 		return false
@@ -676,6 +690,39 @@ func configs(prop, tier string) []*Config {
 		}
 		return out
 	}
+	if prop == "C06" {
+		// an injected failure of one input (open error, or a read error at every
+		// read position) while another input is read: the failure is counted
+		// once, the bytes before it and the whole other input are processed,
+		// and the reader slot is released (no deadlock with --readers 1)
+		for _, pr := range [][2]int{{2, 3}, {8, 1}} {
+			for _, readers := range []int{1, 2} {
+				for errSrc := 0; errSrc < 2; errSrc++ {
+					maxAt := 3
+					if quick {
+						maxAt = 2
+					}
+					for errAt := -1; errAt <= maxAt; errAt++ {
+						for _, batch := range []int{1, 2} {
+							c := Config{Path: "files", Sources: []string{shapes[pr[0]], shapes[pr[1]]}, Matcher: "re", Extract: exFull, Batch: batch, Workers: 1, Readers: readers, Buffer: 1, Chunk: true}
+							c.Bound = bound
+							c.ErrSrc, c.ErrAt = errSrc, errAt
+							out = append(out, &c)
+						}
+					}
+				}
+			}
+		}
+		for _, s := range []int{2, 8, 6} {
+			for errAt := 0; errAt <= 3; errAt++ {
+				c := Config{Path: "reader", Sources: []string{shapes[s]}, Matcher: "re", Extract: exFull, Batch: 2, Workers: 1, Readers: 1, Buffer: 1, Chunk: true}
+				c.Bound = bound
+				c.ErrSrc, c.ErrAt = 0, errAt
+				out = append(out, &c)
+			}
+		}
+		return out
+	}
 	// C01 / C02: plumbing grid with the first logic, logic grid with two plumbings
 	rshapes := []int{1, 2, 3, 5, 6, 8}
 	batches := []int{1, 2, 3}
@@ -763,6 +810,9 @@ func worker(w *runner.W) {
 				for _, f := range fs {
 					if f.prop == w.Prop {
 						w.Violation(f.sig, f.detail, Case{Config: c, Vector: ex.Vector()})
+					} else if w.Prop == "C06" && (f.prop == "C01" || (f.prop == "C05" && !strings.HasPrefix(f.sig, "C05/race"))) {
+						// with a failing input: lost or duplicated lines of the other inputs, deadlocks
+						w.Violation("C06/with-failing-input/"+f.sig, f.detail, Case{Config: c, Vector: ex.Vector()})
 					}
 				}
 				key := strings.Join(o.arrival, ",") + "#" + strconv.Itoa(len(o.snaps)) + "#" + fmt.Sprint(o.renderStart)
@@ -808,6 +858,8 @@ func replay(w *runner.W, raw json.RawMessage) {
 	for _, f := range fs {
 		if f.prop == w.Prop {
 			w.Violation(f.sig, f.detail+"\nschedule: "+strings.Join(traceCase(c.Config, c.Vector).Trace, " "), c)
+		} else if w.Prop == "C06" && (f.prop == "C01" || (f.prop == "C05" && !strings.HasPrefix(f.sig, "C05/race"))) {
+			w.Violation("C06/with-failing-input/"+f.sig, f.detail, c)
 		}
 	}
 	_ = res
@@ -817,7 +869,7 @@ func main() {
 	sort.Strings(nil)
 	runner.Main(&runner.Spec{
 		Name:       "pipeline",
-		Properties: []string{"C01", "C02", "C05"},
+		Properties: []string{"C01", "C02", "C05", "C06"},
 		Level:      "model_checking",
 		Rule: func(prop, tier string) string {
 			return "real batcher + extractor workers + consumer (C01/C02) or helpers.RunAggregationLoop with a monitored counter aggregator and status-line readers (C05), compiled onto the controlled runtime; for every configuration of the grid (input shapes over {a,b,CR,LF} incl. CRLF, empty lines, no trailing newline, a line longer than the 4-byte read buffer; batch 1-3, workers 1-2, readers 1-2, batch-buffer 1-2; regex/dissect/always matcher; extract/ignore expressions) every schedule with at most 2 (quick) / 3 (thorough) deviations from the default scheduler (delay bounding: run until blocked, then the next goroutine in cyclic order) (preemptions at channel/mutex/atomic/waitgroup/go operations, 1-byte short reads, 250ms clock jumps at clock readings, firing of the 100ms render timer while work is runnable) is executed; blocking switches and select choices are free. States = distinct (configuration, emission order, render positions) outcomes; transitions = scheduling steps. Non-trivial = at least one goroutine switch."
